@@ -15,8 +15,8 @@ ENGINES = [
 NOTES = ('Static analysis only: no registered check executes dnssector code or calls a solver. Each ./check re-extracts MIR facts from '
          "$VERIF_REPO (default /repo)'s working tree into a fresh temporary target directory. See DESIGN.md. "
          'One known finding is reported on every run (C06: D18, pointer chains deeper than the parser follows; known_findings.json). '
-         'The rules were exercised with 144 independently seeded breaking changes (seeded/) and 36 independently written behaviour-preserving '
-         'refactors (refactors/); the latter showed which spellings of the code the rules depended on - 27 of the 36 are silent now, the '
+         'The rules were exercised with 144 independently seeded breaking changes (seeded/) and 54 independently written behaviour-preserving '
+         'refactors (refactors/: 18 small everyday edits, all silent under all 18 checks; 18 medium, 17 silent; 18 heavy restructurings, 10 silent); the '
          'restructurings that still raise an alarm although the property holds are listed in DESIGN.md section 7 and kept under selftest/pending.')
 PENDING = 'rule engine for this property is not committed yet in this revision of /verif (see DESIGN.md section 6, build order); not claimed until it is'
 CHECKS = {
